@@ -62,6 +62,8 @@ def gen_scenario(rng, intervals=("1min", "1min", "1min", "1h", "5min", "2h", "2h
         kind = rng.choice(("CALL", "PUT"))
         base = rng.choice((token_price_guess, rng.uniform(1500, 2600)))
         strike = int(round(base / 25.0)) * 25 + rng.choice((-50, -25, 0, 0, 25, 50))
+        if rng.random() < 0.12:
+            strike = int(round(base * rng.choice((2.0, 2.5, 4.0, 0.4)) / 25.0)) * 25       # far out: also against the fallback token price
         exp_cls = rng.choice(("before-start", "on-hour", "on-hour", "between-hours", "between-hours", "after-end", "first-bar"))
         if exp_cls == "before-start":
             expiry = -rng.choice((1, 60, 600))
@@ -86,7 +88,11 @@ def gen_scenario(rng, intervals=("1min", "1min", "1min", "1h", "5min", "2h", "2h
                 mark = rng.choice((0.0005, 0.0011, 0.0013, 0.002, 0.01, 0.05, round(rng.uniform(0.0001, 0.2), 4)))    # independent of intrinsic
                 path.append((S, mark))
                 continue
-            if r < 0.2:
+            if r < 0.12:
+                # far from the strike: a put whose underlying fell to half the strike or below pays MORE than one coin per contract
+                # ((K - S) / S > 1), a call deep in the money pays close to one; exactly K/2 is the tie (K - S) / S = 1
+                S = round(strike * rng.choice((0.2, 0.35, 0.45, 0.5, 0.5, 0.55, 1.9, 3.0)), 2)
+            elif r < 0.2:
                 S = float(strike)                                   # at the money exactly
             elif r < 0.45:
                 S = round(strike * (1 + rng.choice((-1, 1)) * rng.choice((1e-6, 1e-5, 1e-4, 2e-4))), 4)   # payoff about the size of the fee
